@@ -619,6 +619,8 @@ func (st *State) bval(s VSlice) *Term {
 	arr := st.heapGet("[]"+st.eng.typeKey(s.Elem), ArrSort(ArrSort(SInt)))
 	t := UF("bval", SInt, Select(arr, s.Arr), s.Off, s.Len)
 	st.addFact(Eq(UF("blen", SInt, t), s.Len))
+	st.addFact(Implies(Eq(s.Len, IntLit(0)), Eq(t, IntLit(0)))) // all empty byte strings are equal
+	st.addFact(Implies(Eq(t, IntLit(0)), Eq(s.Len, IntLit(0))))
 	return t
 }
 
